@@ -10,11 +10,6 @@ R = causes.Reason
 ETYPES = [None, 'ADDED', 'MODIFIED', 'DELETED']
 
 
-def _b(x):
-    """Truth value of a harness-side flag as something the combinators accept (no fork)."""
-    return x
-
-
 class SymPatch:
     """
     patches.Patch as the orchestration sees it (contract of Patch.__bool__/fns): `bool(patch)` is
@@ -32,7 +27,7 @@ class SymPatch:
 
 
 # =================================================================== process_resource_causes world
-def causes_world(vc, *, pressure_may_be_none=False):
+def causes_world(vc, *, pressure_may_be_none=False, changing_may_raise=False):
     """
     Runs the real `process_resource_causes` once over havocked callee results and returns everything
     observed.  Callee contracts used (each callee is a stub, never the body):
@@ -40,7 +35,8 @@ def causes_world(vc, *, pressure_may_be_none=False):
                                         changing_cause.reason is GONE  <=>  event type == 'DELETED';
       process_watching_cause         -> returns None; may add to the patch content (trusted: delivers results);
       process_spawning_cause (H7)    -> returns an arbitrary list of reals; may add to the patch content;
-      process_changing_cause (H1)    -> returns an arbitrary list of reals or raises; may add to the patch content;
+      process_changing_cause (H1)    -> returns an arbitrary list of reals or (`changing_may_raise`; nothing happens after
+                                        it in the caller, so only H2 looks at that case) raises; may add to the patch content;
       registry._changing.prematch / *.requires_finalizer (R2) -> arbitrary booleans (pure);
       finalizers.is_deletion_ongoing / is_deletion_blocked (K2) -> arbitrary booleans, functions of (body[, finalizer]);
       aiotime.sleep (T1) via pyvc.stubs.make_sleep on a ghost clock; loop.time() == the ghost clock.
@@ -115,7 +111,7 @@ def causes_world(vc, *, pressure_may_be_none=False):
         chk(kw.get('cause') is W.changing and kw.get('memory') is W.memory and kw.get('registry') is W.registry
             and kw.get('settings') is W.settings and kw.get('lifecycle') is W.lifecycle)
         await suspend('process_changing_cause')
-        if vc.nondet(2, 'process_changing_cause raises?') == 1:
+        if changing_may_raise and vc.nondet(2, 'process_changing_cause raises?') == 1:
             raise _HandlingError('any exception out of process_changing_cause')
         W.patch.content = Or(W.patch.content, vc.bool('patch.content+changing'))
         W.ch_delays = vc.seq('changing_delays', 'real')
@@ -227,7 +223,7 @@ def H2(vc):
       normal return  =>  the removal is appended;  nothing but these two kinds of fns is appended, each bound to
       settings.persistence.finalizer.
     """
-    W = causes_world(vc)
+    W = causes_world(vc, changing_may_raise=True)
     live = Not(W.deleted_event)
     stale = And(Not(W.must_block), W.blocked)                       # nothing requires the finalizer any more
     adding = And(W.must_block, Not(W.blocked), Not(W.ongoing))
@@ -429,3 +425,606 @@ def H5(vc):
     vc.ensure('passes_through', all(ev[2] is resource for ev in tr if ev[0] in ('has_handlers', 'get_extra_fields')))
     vc.canary('canary.always_all_causes', all(r is not None for r in res))
     return ('return', [r is not None for r in res], stored is None)
+
+
+# ----------------------------------------------------------------------------------------------- H6
+@harness('H6', targets='kopf._core.reactor.processing.process_resource_event', props=['C08', 'C17', 'C14'],
+         clauses=['order', 'index_gate', 'apply_unless_deleted', 'patch_threaded', 'inside_throttled', 'recall_flag', 'passes_through'],
+         canaries=['canary.always_applies', 'canary.never_forgets', 'canary.remaining_never_changes'],
+         trusted=['throttlers.throttled by contract T2: yields should_run; swallows an Exception of the block iff should_run',
+                  'application.apply by contract A1: returns (applied, resource_version, remaining_patch) or raises',
+                  'indexing.index_resource (I2), ToggleSet.drop_toggle/wait_for, ResourceMemories.recall/forget (V1): awaited, may suspend',
+                  'bodies.Body, patches.Patch constructors and contextlib.nullcontext run as real code (inlined)'])
+def H6(vc):
+    """
+    process_resource_event, on the ghost trace: recall memory -> (forget, iff the event is DELETED) ->
+    index_resource -> drop the object's own toggle (iff both toggles are given) -> wait for operator_indexed
+    (iff given) -> process_resource_causes -> application.apply (iff the event is not DELETED).  The Patch
+    handed to the causes starts from the previous memory.remaining_patch (same content, same fns in the same
+    order) and the same Patch object goes to apply together with the delays the causes returned;
+    memory.remaining_patch := what apply returned, and is left as it was whenever apply did not return
+    (DELETED, throttled, or an error) so that carried transformations are not lost; the result is apply's
+    resource version.  Everything from indexing on runs inside the `throttled` block and only if it
+    yields should_run.  recall is told noticed_by_listing == (event type is None).
+    """
+    from kopf._cogs.structs import patches
+    etype = vc.fin('event.type', ETYPES)
+    deleted = Eq(etype, 'DELETED')
+    raw_body = {'metadata': {'name': 'obj', 'uid': 'uid1'}}
+    raw_event = {'type': etype, 'object': raw_body}
+    carried_fn = Opaque('carried-fn')
+    prev_kind = vc.nondet(2, 'previous remaining patch')
+    prev = [None, patches.Patch({'status': {'k': 'v'}}, fns=[carried_fn])][prev_kind]
+    prev_content = dict(prev) if prev is not None else {}
+    prev_fns = list(prev.fns) if prev is not None else []
+
+    class LiveBody(dict):
+        def _replace_with(self, src):
+            vc.emit('live_body.replace', src)
+    live = LiveBody() if vc.nondet(2, 'live body kept by daemons?') == 1 else None
+    throttler, memo, indexing_memory = Opaque('throttler'), Opaque('memo'), Opaque('indexing_memory')
+    memory = Opaque('memory', daemons_memory=Opaque('daemons_memory', live_fresh_body=live), remaining_patch=prev,
+                    error_throttler=throttler, memo=memo, indexing_memory=indexing_memory)
+    memobase = Opaque('memobase')
+
+    class Memories:
+        async def recall(self, raw_body, *, noticed_by_listing=False, memobase=None):
+            vc.emit('recall', raw_body, noticed_by_listing, memobase)
+            await suspend('memories.recall')
+            return memory
+
+        async def forget(self, raw_body):
+            vc.emit('forget', raw_body)
+            await suspend('memories.forget')
+    should_run = vc.bool('throttled.should_run')
+    no_throttling = vc.nondet(2, 'no_throttling?') == 1
+    pressure = StubEvent('stream_pressure')
+    error_delays = Opaque('error_delays')
+    settings = Opaque('settings', queueing=Opaque('queueing', error_delays=error_delays))
+
+    class Throttled:
+        def __init__(self, **kw):
+            vc.emit('throttled', kw)
+
+        async def __aenter__(self):
+            await suspend('throttled: 1st sleep')
+            vc.emit('throttled.enter')
+            return should_run
+
+        async def __aexit__(self, et, e, tb):
+            vc.emit('throttled.exit', et)
+            swallowed = et is not None and issubclass(et, Exception) and bool(should_run)
+            await suspend('throttled: 2nd sleep')
+            return swallowed
+
+    class Toggles:
+        async def drop_toggle(self, toggle):
+            vc.emit('drop', toggle); await suspend('drop_toggle')
+
+        async def wait_for(self, state):
+            vc.emit('wait', state); await suspend('operator_indexed.wait_for')
+    operator_indexed = Toggles() if vc.nondet(2, 'operator_indexed given?') == 1 else None
+    resource_indexed = Opaque('own-toggle') if vc.nondet(2, 'resource_indexed given?') == 1 else None
+
+    async def index_resource(**kw):
+        vc.emit('index', kw); await suspend('index_resource')
+    causes_out = {}
+
+    async def process_resource_causes(**kw):
+        p = kw.get('patch')
+        vc.emit('causes', kw, dict(p) if p is not None else None, list(p.fns) if p is not None else None)
+        await suspend('process_resource_causes')
+        if vc.nondet(2, 'process_resource_causes raises?') == 1:
+            raise _HandlingError('any exception out of the causes')
+        causes_out['delays'] = vc.seq('delays', 'real')
+        return causes_out['delays'], vc.bool('matched')
+    apply_out = {}
+
+    async def apply(**kw):
+        vc.emit('apply', kw)
+        await suspend('application.apply')
+        if vc.nondet(2, 'apply raises?') == 1:
+            raise _HandlingError('any exception out of apply (API errors)')
+        apply_out['rv'] = vc.opt('resource_version', vc.str)
+        apply_out['remaining'] = patches.Patch(fns=[Opaque('unapplied-fn')]) if vc.nondet(2, 'patch remains?') == 1 else None
+        return vc.bool('applied'), apply_out['rv'], apply_out['remaining']
+    vc.used('processing.process_resource_causes', 'H2/H3/H4'); vc.used('application.apply', 'A1')
+    vc.used('throttlers.throttled', 'T2'); vc.used('indexing.index_resource', 'I2'); vc.used('inventory.ResourceMemories.recall', 'V1')
+    clock = Clock()
+    ctxvar = lambda name: Opaque(name, set=lambda v: vc.emit(name + '.set', v))
+    ld = vc.load('kopf._core.reactor.processing', 'process_resource_event', stubs={
+        'loggers.LocalObjectLogger': lambda **kw: NullLogger(), 'loggers.TerseObjectLogger': lambda **kw: NullLogger(),
+        'loggers.ObjectLogger': lambda **kw: NullLogger(),
+        'throttlers.throttled': Throttled,
+        'posting.event_queue_loop_var': ctxvar('event_queue_loop_var'), 'posting.event_queue_var': ctxvar('event_queue_var'),
+        'asyncio.get_running_loop': lambda: StubLoop(clock),
+        'indexing.index_resource': index_resource,
+        'process_resource_causes': process_resource_causes,
+        'application.apply': apply,
+    })
+    lifecycle, indexers, registry, resource, event_queue = (Opaque(n) for n in ('lifecycle', 'indexers', 'registry', 'resource', 'event_queue'))
+    operator_paused = Opaque('operator_paused')
+    consistency_time = vc.fin('consistency_time', [None, 12.5])      # only handed through, never inspected here
+    raised = None
+    result = None
+    try:
+        result = vc.drive(ld.fn(
+            lifecycle=lifecycle, indexers=indexers, registry=registry, settings=settings, memories=Memories(), memobase=memobase,
+            resource=resource, raw_event=raw_event, event_queue=event_queue, stream_pressure=pressure,
+            operator_paused=operator_paused, resource_indexed=resource_indexed, operator_indexed=operator_indexed,
+            consistency_time=consistency_time, no_throttling=no_throttling),
+            on_suspend=lambda site: (clock.advance(0), pressure.havoc(only_set=True)) and None)
+    except _HandlingError as e:
+        raised = e
+    tr = list(vc.trace)
+    names = [ev[0] for ev in tr]
+    pos = lambda n: [i for i, x in enumerate(names) if x == n]
+    steps = ('recall', 'forget', 'index', 'drop', 'wait', 'causes', 'apply')
+    seq_of_steps = [n for n in names if n in steps]
+    # -- order: the steps that occur, occur once and in this order
+    vc.ensure('order', seq_of_steps == [n for n in steps if n in seq_of_steps])
+    vc.ensure('order', names.count('recall') == 1)
+    vc.ensure('order', Iff(len(pos('forget')) == 1, deleted))
+    runs = True if no_throttling else should_run
+    reached_causes = 'causes' in names
+    causes_returned = 'delays' in causes_out
+    # -- the start-up gate of C17
+    vc.ensure('index_gate', Iff(len(pos('index')) == 1, runs))
+    vc.ensure('index_gate', Implies(runs, len(pos('drop')) == (1 if operator_indexed is not None and resource_indexed is not None else 0)))
+    vc.ensure('index_gate', Implies(runs, len(pos('wait')) == (1 if operator_indexed is not None else 0)))
+    vc.ensure('index_gate', all(tr[i][1] is resource_indexed for i in pos('drop')) and all(tr[i][1] is True for i in pos('wait')))
+    vc.ensure('index_gate', Iff(reached_causes, runs))
+    # -- apply
+    vc.ensure('apply_unless_deleted', Iff('apply' in names, And(runs, Not(deleted), causes_returned)))
+    # -- inside the throttled block
+    inner = [i for i, n in enumerate(names) if n in ('index', 'drop', 'wait', 'causes', 'apply')]
+    if not no_throttling:
+        ent, ext = pos('throttled.enter'), pos('throttled.exit')
+        vc.ensure('inside_throttled', len(ent) == 1 and len(ext) == 1 and all(ent[0] < i < ext[0] for i in inner))
+        kw = tr[pos('throttled')[0]][1]
+        vc.ensure('passes_through', kw.get('throttler') is throttler and kw.get('delays') is error_delays and kw.get('wakeup') is pressure)
+    vc.ensure('inside_throttled', Implies(Not(runs), len(inner) == 0))
+    vc.ensure('inside_throttled', Implies(Not(runs), result is None and raised is None))
+    # -- the remaining patch is threaded through the cycles
+    body = None
+    for i in pos('causes'):
+        _, kw, content, fns = tr[i]
+        body = kw.get('body')
+        vc.ensure('patch_threaded', content == prev_content and fns is not None and len(fns) == len(prev_fns)
+                  and all(a is b for a, b in zip(fns, prev_fns)))
+        vc.ensure('passes_through', kw.get('raw_event') is raw_event and kw.get('memory') is memory and kw.get('registry') is registry
+                  and kw.get('settings') is settings and kw.get('resource') is resource and kw.get('indexers') is indexers
+                  and kw.get('lifecycle') is lifecycle and kw.get('stream_pressure') is pressure
+                  and kw.get('operator_paused') is operator_paused and kw.get('consistency_time') is consistency_time)
+        vc.ensure('passes_through', (body is live) if live is not None else (body is not None and dict(body) == raw_body))
+    for i in pos('apply'):
+        kw = tr[i][1]
+        ckw = tr[pos('causes')[0]][1]
+        vc.ensure('patch_threaded', kw.get('patch') is ckw.get('patch') and kw.get('delays') is causes_out.get('delays'))
+        vc.ensure('passes_through', kw.get('body') is body and kw.get('resource') is resource and kw.get('settings') is settings
+                  and kw.get('stream_pressure') is pressure)
+    for i in pos('index'):
+        kw = tr[i][1]
+        vc.ensure('passes_through', kw.get('raw_event') is raw_event and kw.get('memory') is indexing_memory and kw.get('memo') is memo
+                  and kw.get('registry') is registry and kw.get('indexers') is indexers and kw.get('resource') is resource)
+    if live is not None:
+        rep = pos('live_body.replace')
+        vc.ensure('passes_through', len(rep) == 1 and tr[rep[0]][1] is raw_body and all(rep[0] < i for i in inner))
+    applied_ok = 'rv' in apply_out
+    if applied_ok:
+        vc.ensure('patch_threaded', memory.remaining_patch is apply_out['remaining'])
+        vc.ensure('patch_threaded', raised is None and (result is apply_out['rv']))
+    else:
+        vc.ensure('patch_threaded', memory.remaining_patch is prev)
+        vc.ensure('patch_threaded', result is None)
+    vc.canary('canary.remaining_never_changes', memory.remaining_patch is prev)
+    # -- what recall is told
+    _, rb, nbl, mb = tr[pos('recall')[0]]
+    vc.ensure('recall_flag', Iff(nbl, Eq(etype, None)) and rb is raw_body and mb is memobase)
+    vc.ensure('recall_flag', all(tr[i][1] is raw_body for i in pos('forget')))
+    vc.canary('canary.always_applies', 'apply' in names)
+    vc.canary('canary.never_forgets', 'forget' not in names)
+    return ('raise' if raised is not None else 'return', seq_of_steps, applied_ok, None if result is None else 'rv')
+
+
+# ----------------------------------------------------------------------------------------------- K3
+def _fin_parts(t):
+    """(metadata term, metadata is an object, it has a finalizers list, the list's items or the empty sequence)."""
+    import z3
+    from pyvc.values import J, JSeq
+    md = z3.Select(J.fields(t), z3.StringVal('metadata'))
+    fin = z3.Select(J.fields(md), z3.StringVal('finalizers'))
+    md_obj = J.is_JObj(md)
+    has_list = z3.And(md_obj, J.is_JList(fin))
+    items = z3.If(has_list, J.items(fin), z3.Empty(JSeq))
+    return md, md_obj, has_list, items
+
+
+def _with_items(t, items):
+    """The body `t` (which has a finalizers list) with that list's items replaced."""
+    import z3
+    from pyvc.values import J
+    md = z3.Select(J.fields(t), z3.StringVal('metadata'))
+    return J.JObj(z3.Store(J.fields(t), z3.StringVal('metadata'),
+                           J.JObj(z3.Store(J.fields(md), z3.StringVal('finalizers'), J.JList(items)))))
+
+
+def _without_first(items, f):
+    import z3
+    i = z3.IndexOf(items, z3.Unit(f), 0)
+    n = z3.Length(items)
+    return i, z3.If(i >= 0, z3.Concat(z3.SubSeq(items, 0, i), z3.SubSeq(items, i + 1, n - i - 1)), items)
+
+
+def _spec_cleanup(t):
+    """allow_deletion's documented tidy-up as a term: drop `finalizers` iff present and empty, then `metadata` iff present and empty."""
+    import z3
+    from pyvc.values import J
+    md, md_obj, has_list, items = _fin_parts(t)
+    empty_obj = z3.K(z3.StringSort(), J.JAbsent)
+    md_fields = z3.If(z3.And(has_list, z3.Length(items) == 0), z3.Store(J.fields(md), z3.StringVal('finalizers'), J.JAbsent), J.fields(md))
+    return z3.If(md_obj,
+                 z3.If(md_fields == empty_obj,
+                       J.JObj(z3.Store(J.fields(t), z3.StringVal('metadata'), J.JAbsent)),
+                       J.JObj(z3.Store(J.fields(t), z3.StringVal('metadata'), J.JObj(md_fields)))),
+                 t)
+
+
+def _py_fins(b):
+    md = b.get('metadata') if isinstance(b, dict) else None
+    fins = md.get('finalizers') if isinstance(md, dict) else None
+    return fins if isinstance(fins, list) else None
+
+
+def _py_cleanup(b):
+    import copy
+    b = copy.deepcopy(b)
+    if isinstance(b.get('metadata'), dict):
+        if 'finalizers' in b['metadata'] and not b['metadata']['finalizers']:
+            del b['metadata']['finalizers']
+        if not b['metadata']:
+            del b['metadata']
+    return b
+
+
+def _py_with_fins(b, fins):
+    import copy
+    b = copy.deepcopy(b)
+    b['metadata']['finalizers'] = list(fins)
+    return b
+
+
+def _py_without_first(fins, f):
+    fins = list(fins)
+    if f in fins:
+        fins.remove(f)
+    return fins
+
+
+def _load_allow(vc, body, finalizer, contract):
+    """
+    allow_deletion with a loop contract for its `while`.  `contract`:
+      'unique'  -- precondition: the finalizer occurs at most once (Kubernetes keeps metadata.finalizers duplicate-free).
+                   Invariant: the body is the initial one, or the initial one with that single occurrence removed.
+      'general' -- no precondition.  Invariant: only the finalizers list differs from the initial body, and the
+                   list is Del(initial list): reached from it by deleting occurrences of the finalizer only.  Del is
+                   a ghost relation given by its two rules (reflexive; closed under "delete the first occurrence"),
+                   of which exactly the instances needed are assumed; the step itself is proved from the code.
+    Returns (loaded function, info) with info['head'] = the list items at the loop head of the explored path.
+    """
+    import z3
+    from pyvc.values import J, JSeq, SBool, to_json_term
+    from pyvc.engine import E
+    info = {}
+    if vc.concrete:
+        import copy
+        b0 = copy.deepcopy(body)
+        F0 = _py_fins(b0)
+
+        def invariant(loc):
+            cur = _py_fins(body)
+            if F0 is None:
+                return body == b0
+            if cur is None or _py_with_fins(body, F0) != b0:
+                return False
+            if contract == 'unique':
+                return cur == F0 or cur == _py_without_first(F0, finalizer)
+            return True         # the ghost relation Del has no concrete counterpart (its model value is arbitrary)
+
+        def havoc(loc):
+            if contract == 'unique':
+                if vc.nondet(2, 'loop head: nothing removed yet / removed') == 1 and F0 is not None and finalizer in F0:
+                    body['metadata']['finalizers'] = _py_without_first(F0, finalizer)
+            else:
+                if F0 is not None:
+                    body['metadata']['finalizers'] = _plain_json(list(E().draw('finalizers@head', JSeq)))
+            info['head'] = _py_fins(body)
+            return {}
+        ld = vc.load('kopf._cogs.structs.finalizers', 'allow_deletion',
+                     loops={1: LoopSpec('while finalizer in body.get', invariant=invariant, havoc=havoc)})
+        return ld, info
+    t0 = body.term
+    f = to_json_term(finalizer)
+    md0, md_obj0, has_list0, F0 = _fin_parts(t0)
+    i0, F1 = _without_first(F0, f)
+    hl = bool(SBool(has_list0))          # case split: is there a finalizers list at all? (keeps the terms simple)
+    _seq_hints(vc, F0, f)
+    Del = z3.Function('Del', JSeq, JSeq, J, z3.BoolSort())
+    if contract == 'general':
+        vc.assume(SBool(Del(F0, F0, f)), 'ghost relation Del: reflexive (instance)')
+    phase = ['entry']
+
+    def invariant(loc):
+        t = body.term
+        if not hl:
+            return SBool(t == t0)
+        if contract == 'unique':
+            return SBool(z3.Or(t == t0, z3.And(i0 >= 0, t == _with_items(t0, F1))))
+        _, _, _, F = _fin_parts(t)
+        if phase[0] == 'iteration':                         # at the back edge: the rule instance for this iteration
+            Fh = info['head']
+            ih, Fh1 = _without_first(Fh, f)
+            vc.assume(SBool(z3.Implies(z3.And(Del(F0, Fh, f), ih >= 0, F == Fh1), Del(F0, F, f))),
+                      'ghost relation Del: closed under deleting the first occurrence (instance)')
+        return SBool(z3.And(t == _with_items(t0, F), Del(F0, F, f)))
+
+    def havoc(loc):
+        if contract == 'unique':
+            info['head'] = F0
+            if vc.nondet(2, 'loop head: nothing removed yet / removed') == 1:
+                vc.assume(SBool(z3.And(has_list0, i0 >= 0)), 'there was an occurrence to remove')
+                body.root.term = _with_items(t0, F1)
+                info['head'] = F1
+        elif hl:
+            Fh = E().draw('finalizers@head', JSeq)
+            body.root.term = _with_items(t0, Fh)
+            info['head'] = Fh
+            _seq_hints(vc, Fh, f)
+        else:
+            info['head'] = F0
+        return {}
+
+    def inv(loc):
+        r = invariant(loc)
+        phase[0] = {'entry': 'head', 'head': 'iteration', 'iteration': 'done'}[phase[0]]
+        return r
+    ld = vc.load('kopf._cogs.structs.finalizers', 'allow_deletion',
+                 loops={1: LoopSpec('while finalizer in body.get', invariant=inv, havoc=havoc)})
+    return ld, info
+
+
+def _seq_hints(vc, F, f):
+    """Instances of the sequence-theory lemmas proved in K3L (valid for every sequence F and element f);
+    z3 alone does not find the first-occurrence fact inside a large context."""
+    import z3
+    from pyvc.values import SBool
+    u = z3.Unit(f)
+    i = z3.IndexOf(F, u, 0)
+    pre, post = z3.SubSeq(F, 0, i), z3.SubSeq(F, i + 1, z3.Length(F) - i - 1)
+    vc.assume(SBool((i >= 0) == z3.Contains(F, u)), 'K3L.indexof_iff_contains (instance)')
+    vc.assume(SBool(z3.Implies(i >= 0, z3.Not(z3.Contains(pre, u)))), 'K3L.first_occurrence (instance)')
+    vc.assume(SBool(z3.Implies(z3.Contains(z3.Concat(pre, post), u), z3.Or(z3.Contains(pre, u), z3.Contains(post, u)))),
+              'K3L.unit_split (instance)')
+    vc.used('sequence lemmas (indexof/contains/first occurrence)', 'K3L')
+
+
+def _plain_json(x):
+    """Concrete JSON from a model: as c05_causes._strip_absent, and <absent> *list elements* (not JSON, but the
+    datatype admits them) become a sentinel that compares by value and never equals a string."""
+    from pyvc.values import Absent
+    if isinstance(x, dict):
+        return {k: _plain_json(v) for k, v in x.items() if not isinstance(v, Absent) and k != '<every-other-key>'}
+    if isinstance(x, list):
+        return [('<absent>',) if isinstance(v, Absent) else _plain_json(v) for v in x]
+    return x
+
+
+@harness('K3', targets=['kopf._cogs.structs.finalizers.block_deletion', 'kopf._cogs.structs.finalizers.allow_deletion'],
+         props=['C06', 'C08'],
+         clauses=['block.appended_once_iff_absent', 'block.nothing_else_changes', 'block.idempotent',
+                  'allow.removed_entirely', 'allow.others_keep_order_and_multiplicity', 'allow.empties_removed_only_when_empty',
+                  'allow.nothing_else_changes', 'allow.idempotent'],
+         canaries=['canary.block_always_appends', 'canary.allow_keeps_metadata'],
+         assumes=['watched bodies: JSON object; metadata, if present, an object; metadata.finalizers, if present, a list (wf_body)',
+                  'list.remove(x) deletes the first element equal to x; JSON kinds are disjoint (no 1 == True)',
+                  'ghost relation Del(F0, F): F is reached from F0 by deleting occurrences of the finalizer only '
+                  '(defined by its two rules; used for lists with duplicates, contract "general")'])
+def K3(vc):
+    """
+    finalizers.block_deletion / allow_deletion on an arbitrary JSON body (as the JSON-patch machinery runs them).
+    block: metadata.finalizers' == finalizers ++ [f] if f is not in it, unchanged otherwise (so every other
+    element keeps its position and multiplicity, f is appended exactly once iff absent); `metadata`/`finalizers`
+    are created when missing; nothing else in the body changes; block(block(b)) == block(b).
+    allow (loop contract): afterwards f does not occur; with at most one occurrence (Kubernetes' uniqueness;
+    contract 'unique') the list is exactly the old one minus that element; for arbitrary lists (contract
+    'general') the list is Del(old list) -- obtained by deleting occurrences of f only -- which with "f does
+    not occur" characterises the order- and multiplicity-preserving removal; then `finalizers` is dropped
+    iff it is present and empty, `metadata` iff it is present and empty; nothing else changes;
+    allow(allow(b)) == allow(b).
+    """
+    from contracts.c05_causes import wf_body
+    body = vc.json('body')
+    finalizer = vc.str('finalizer')
+    which = ('block', 'allow-unique', 'allow-general')[vc.nondet(3, 'function / contract')]
+    if vc.concrete:
+        return _K3_concrete(vc, _plain_json(body), finalizer, which)
+    import z3
+    from pyvc.values import J, SBool, to_json_term
+    wf_body(vc, body)
+    f = to_json_term(finalizer)
+    t0 = body.term
+    md0, md_obj0, has_list0, F0 = _fin_parts(t0)
+    present0 = z3.Contains(F0, z3.Unit(f))
+    empty_obj = z3.K(z3.StringSort(), J.JAbsent)
+    if which == 'block':
+        ld = vc.load('kopf._cogs.structs.finalizers', 'block_deletion')
+        ld.fn(body, finalizer)
+        t1 = body.term
+        _, _, has_list1, F1 = _fin_parts(t1)
+        vc.ensure('block.appended_once_iff_absent', SBool(z3.And(has_list1, F1 == z3.If(present0, F0, z3.Concat(F0, z3.Unit(f))))))
+        md_fields0 = z3.If(md_obj0, J.fields(md0), empty_obj)
+        expected = z3.If(present0, t0, J.JObj(z3.Store(J.fields(t0), z3.StringVal('metadata'), J.JObj(
+            z3.Store(md_fields0, z3.StringVal('finalizers'), J.JList(z3.Concat(F0, z3.Unit(f))))))))
+        vc.ensure('block.nothing_else_changes', SBool(t1 == expected))
+        ld.fn(body, finalizer)
+        vc.ensure('block.idempotent', SBool(body.term == t1))
+        vc.canary('canary.block_always_appends', SBool(t1 != t0))
+        return ('block', z3.And(present0), F1)
+    contract = 'unique' if which == 'allow-unique' else 'general'
+    hl = bool(SBool(has_list0))
+    i0, F0_minus = _without_first(F0, f)
+    if contract == 'unique':
+        vc.assume(SBool(z3.Not(z3.Contains(z3.SubSeq(F0, i0 + 1, z3.Length(F0) - i0 - 1), z3.Unit(f)))),
+                  'the finalizer occurs at most once in metadata.finalizers (Kubernetes keeps the list duplicate-free)')
+    ld, info = _load_allow(vc, body, finalizer, contract)
+    ld.fn(body, finalizer)                       # paths through an iteration end at the back edge (invariant checked there)
+    t1 = body.term
+    md1, md_obj1, has_list1, F1 = _fin_parts(t1)
+    Fx = info['head']                            # the list when the loop was left: no occurrence (the guard was false)
+    vc.ensure('allow.removed_entirely', SBool(z3.Not(z3.Contains(F1, z3.Unit(f)))))
+    if contract == 'unique':
+        vc.ensure('allow.others_keep_order_and_multiplicity', SBool(F1 == F0_minus))
+        final_list = F0_minus
+    else:
+        Del = z3.Function('Del', F0.sort(), F0.sort(), J, z3.BoolSort())
+        vc.ensure('allow.others_keep_order_and_multiplicity', SBool(z3.And(Del(F0, F1, f), F1 == Fx)))
+        final_list = Fx
+    fin1 = z3.Select(J.fields(md1), z3.StringVal('finalizers'))
+    vc.ensure('allow.empties_removed_only_when_empty',
+              SBool(z3.And(z3.Implies(md_obj1, J.fields(md1) != empty_obj),                 # no empty metadata is left
+                           z3.Implies(has_list1, z3.Length(F1) > 0),                        # no empty finalizers is left
+                           z3.Implies(z3.And(has_list0, z3.Length(final_list) > 0), has_list1),   # non-empty list kept
+                           z3.Implies(z3.And(md_obj0, z3.Not(md_obj1)),                      # metadata dropped only if nothing else was in it
+                                      z3.Store(J.fields(md0), z3.StringVal('finalizers'), J.JAbsent) == empty_obj))))
+    expected = _spec_cleanup(_with_items(t0, final_list) if hl else t0)
+    vc.ensure('allow.nothing_else_changes', SBool(t1 == expected))
+    vc.canary('canary.allow_keeps_metadata', SBool(z3.Implies(md_obj0, md_obj1)))
+    # idempotence: the result has no occurrence, so the 'unique' contract's precondition holds for the second call
+    ld2, _ = _load_allow(vc, body, finalizer, 'unique')
+    ld2.fn(body, finalizer)
+    vc.ensure('allow.idempotent', SBool(body.term == t1))
+    return (which, z3.And(has_list1), F1)
+
+
+def _K3_concrete(vc, body, finalizer, which):
+    """The same clauses as executable predicates for the CPython re-run of every explored path."""
+    import copy
+    b0 = copy.deepcopy(body)
+    F0 = _py_fins(b0)
+    if which == 'block':
+        ld = vc.load('kopf._cogs.structs.finalizers', 'block_deletion')
+        ld.fn(body, finalizer)
+        present0 = F0 is not None and finalizer in F0
+        F1 = _py_fins(body)
+        vc.ensure('block.appended_once_iff_absent', F1 == ((F0 or []) if present0 else (F0 or []) + [finalizer]))
+        expected = copy.deepcopy(b0)
+        if not present0:
+            expected.setdefault('metadata', {})['finalizers'] = (F0 or []) + [finalizer]
+        vc.ensure('block.nothing_else_changes', body == expected)
+        b1 = copy.deepcopy(body)
+        ld.fn(body, finalizer)
+        vc.ensure('block.idempotent', body == b1)
+        return ('block', present0, F1 or [])
+    contract = 'unique' if which == 'allow-unique' else 'general'
+    ld, info = _load_allow(vc, body, finalizer, contract)
+    ld.fn(body, finalizer)
+    F1 = _py_fins(body)
+    Fx = info['head']
+    vc.ensure('allow.removed_entirely', finalizer not in (F1 or []))
+    if contract == 'unique':
+        vc.ensure('allow.others_keep_order_and_multiplicity', (F1 or []) == _py_without_first(F0 or [], finalizer))
+    else:
+        vc.ensure('allow.others_keep_order_and_multiplicity', (F1 or []) == (Fx or []))
+    vc.ensure('allow.empties_removed_only_when_empty', body.get('metadata', True) != {} and F1 != [])
+    expected = _py_cleanup(_py_with_fins(b0, Fx) if F0 is not None else b0)
+    vc.ensure('allow.nothing_else_changes', body == expected)
+    b1 = copy.deepcopy(body)
+    ld2, _ = _load_allow(vc, body, finalizer, 'unique')
+    ld2.fn(body, finalizer)
+    vc.ensure('allow.idempotent', body == b1)
+    return (which, F1 is not None, F1 or [])
+
+
+@harness('K3L', targets=['kopf._cogs.structs.finalizers.allow_deletion'], props=['C06', 'C08'],
+         clauses=['indexof_iff_contains', 'first_occurrence', 'unit_split'], canaries=['canary.nothing_after_first'],
+         timeout_ms=1500, native_check=False,
+         assumes=['lemmas of the theory of sequences over an uninterpreted element sort (hence valid for JSON elements); '
+                  'no code is run: K3 assumes instances of them as hints'])
+def K3L(vc):
+    """
+    Sequence-theory lemmas used as hints by K3 (for every sequence s, x, y and element f, u = [f], i = indexof(s, u, 0)):
+    i >= 0 <=> contains(s, u);   i >= 0 => not contains(s[0:i], u)  (the part before the first occurrence has none);
+    contains(x ++ y, u) => contains(x, u) or contains(y, u).   Discharged by z3, or by cvc5 where z3 gives up.
+    """
+    import z3
+    U = z3.DeclareSort('U')
+    S = z3.SeqSort(U)
+    s, x, y, f = z3.Const('sq', S), z3.Const('xq', S), z3.Const('yq', S), z3.Const('ff', U)
+    u = z3.Unit(f)
+    i = z3.IndexOf(s, u, 0)
+    vc.ensure('indexof_iff_contains', SBool((i >= 0) == z3.Contains(s, u)))
+    vc.ensure('first_occurrence', SBool(z3.Implies(i >= 0, z3.Not(z3.Contains(z3.SubSeq(s, 0, i), u)))))
+    vc.ensure('unit_split', SBool(z3.Implies(z3.Contains(z3.Concat(x, y), u), z3.Or(z3.Contains(x, u), z3.Contains(y, u)))))
+    vc.canary('canary.nothing_after_first', SBool(z3.Implies(i >= 0, z3.Not(z3.Contains(z3.SubSeq(s, i + 1, z3.Length(s) - i - 1), u)))))
+    return ('lemmas',)
+
+
+# ----------------------------------------------------------------------------------------------- K3b
+from pyvc.bounded import bounded
+
+
+@bounded('K3b', targets=['kopf._cogs.structs.finalizers.block_deletion', 'kopf._cogs.structs.finalizers.allow_deletion'],
+         props=['C06', 'C08'], clauses=['block_is_append_if_absent', 'allow_is_filter_then_tidy', 'foreign_untouched', 'idempotent'],
+         universe='metadata.finalizers: every list of length <= 4 over {own finalizer, "a", "b"} (all positions, duplicates of each), '
+                  'or absent; metadata: absent / {} / with other keys; with and without other top-level keys')
+def K3b(b):
+    """
+    Bounded stand-in for the part of K3 that is deductive only relative to the ghost relation Del: on lists WITH
+    duplicates of the own finalizer the real allow_deletion equals "filter out the finalizer, then drop an empty
+    finalizers list and an empty metadata"; block_deletion equals "append iff absent"; both are idempotent and
+    never add, drop or reorder foreign finalizers.  Why bounded: z3's sequence theory has no filter; the unbounded
+    statement needs an induction over the list that is outside the engine.
+    """
+    import copy
+    import itertools
+    from kopf._cogs.structs import finalizers
+    own = 'kopf.example/own'
+    names = [own, 'a', 'b']
+    lists = [None] + [list(t) for n in range(5) for t in itertools.product(names, repeat=n)]
+    for fins in lists:
+        for md_extra in ({}, {'name': 'x', 'deletionTimestamp': None}):
+            for top in ({}, {'spec': {'finalizers': [own]}}):
+                for with_md in ((True,) if fins is not None or md_extra else (True, False)):
+                    body = copy.deepcopy(top)
+                    if with_md:
+                        body['metadata'] = copy.deepcopy(md_extra)
+                        if fins is not None:
+                            body['metadata']['finalizers'] = list(fins)
+                    old = fins or []
+                    key = (tuple(old) if fins is not None else None, bool(md_extra), bool(top), with_md)
+                    b.case(key=key, nontrivial=True, sample=body if own in old and old.count(own) > 1 else None)
+                    # block
+                    got = copy.deepcopy(body)
+                    finalizers.block_deletion(got, own)
+                    want = copy.deepcopy(body)
+                    if own not in old:
+                        want.setdefault('metadata', {})['finalizers'] = old + [own]
+                    b.check('block_is_append_if_absent', got == want, lambda: dict(body=body, got=got, want=want))
+                    again = copy.deepcopy(got)
+                    finalizers.block_deletion(again, own)
+                    b.check('idempotent', again == got, lambda: dict(fn='block', body=body, once=got, twice=again))
+                    b.check('foreign_untouched', [x for x in got['metadata']['finalizers'] if x != own] == [x for x in old if x != own],
+                            lambda: dict(fn='block', body=body, got=got))
+                    # allow
+                    got = copy.deepcopy(body)
+                    finalizers.allow_deletion(got, own)
+                    want = copy.deepcopy(body)
+                    if fins is not None:
+                        want['metadata']['finalizers'] = [x for x in old if x != own]
+                    want = _py_cleanup(want)
+                    b.check('allow_is_filter_then_tidy', got == want, lambda: dict(body=body, got=got, want=want))
+                    again = copy.deepcopy(got)
+                    finalizers.allow_deletion(again, own)
+                    b.check('idempotent', again == got, lambda: dict(fn='allow', body=body, once=got, twice=again))
+                    b.check('foreign_untouched', (_py_fins(got) or []) == [x for x in old if x != own],
+                            lambda: dict(fn='allow', body=body, got=got))
